@@ -36,6 +36,7 @@ const (
 	sigDupCMWB  = "C14/duplicate-valueless-client-max-window-bits"
 	sigNonDigit = "C14/window-bits-nondigit-or-overflow-accepted"
 	sigLeadZero = "C14/leading-zero-window-bits-accepted"
+	sigLaterBad = "C14/malformed-offer-after-accepted-one-not-rejected"
 )
 
 // ---------------------------------------------------------------------------
@@ -690,14 +691,20 @@ func judgeList(cfg spec, items []item, steps []step) string {
 		s := steps[i]
 		if it.Malformed {
 			if first >= 0 {
-				hx.Class("open/malformed-after-accept")
+				// "Offers with unknown, duplicated or ill-valued parameters are
+				// rejected as errors" — the statement has no exception for
+				// offers that follow the accepted one.
 				if s.e.Name != "" {
 					return fmt.Sprintf("element %d (malformed, after the accepted one) got answer %q", i, s.e.String())
 				}
 				if s.err != nil {
 					return ""
 				}
-				continue
+				if hx.Known(sigLaterBad) {
+					hx.Exclude(sigLaterBad)
+					continue
+				}
+				return fmt.Sprintf("element %d %q is malformed but was not rejected as an error (it follows the accepted element %d)", i, it.El.String(), first)
 			}
 			if s.err == nil {
 				return fmt.Sprintf("element %d %q is malformed but was not rejected (answer %q)", i, it.El.String(), s.e.String())
@@ -970,7 +977,8 @@ func drawMalformed(t *rapid.T, label string) (e ext, class string) {
 	switch kind {
 	case 0: // unknown parameter
 		class = "unknown"
-		name := rapid.SampledFrom([]string{"foo", "x", "max_window_bits", "server_max_window_bit", "client_max_window_bits_", "server_no_context_takeove", "permessage-deflate", "no_context_takeover"}).Draw(t, label+".name")
+		name := rapid.SampledFrom([]string{"foo", "x", "max_window_bits", "server_max_window_bit", "client_max_window_bits_", "server_no_context_takeove", "permessage-deflate", "no_context_takeover",
+			"Server_No_Context_Takeover", "CLIENT_NO_CONTEXT_TAKEOVER", "Server_max_window_bits", "CLIENT_MAX_WINDOW_BITS", "client_Max_window_bits"}).Draw(t, label+".name")
 		v := rapid.SampledFrom([]string{"", "10", "x"}).Draw(t, label+".val")
 		bad = []kv{{name, v}}
 	case 1: // duplicate of a parameter (either already present, or added twice)
@@ -1230,7 +1238,9 @@ func mustReject(e ext, style int) (built string, msg string) {
 func TestMalformedTable(t *testing.T) {
 	var bads [][]kv
 	// unknown parameters
-	for _, k := range []string{"foo", "x", "max_window_bits", "server_max_window_bit", "client_max_window_bits_", "permessage-deflate"} {
+	// parameter names are case-sensitive tokens: a known name in other letter case is unknown
+	for _, k := range []string{"foo", "x", "max_window_bits", "server_max_window_bit", "client_max_window_bits_", "permessage-deflate",
+		"Server_No_Context_Takeover", "CLIENT_NO_CONTEXT_TAKEOVER", "Server_max_window_bits", "CLIENT_MAX_WINDOW_BITS", "client_Max_window_bits"} {
 		bads = append(bads, []kv{{k, ""}}, []kv{{k, "10"}})
 	}
 	// duplicates
@@ -1839,14 +1849,17 @@ func judgeWire(cfg spec, items []item, r wireResult, x *wsflate.Extension) strin
 		}
 	}
 	if laterBad {
-		// a malformed element after the accepted one: error or ignore — open
-		hx.Class("open/wire-malformed-after-accept")
+		// a malformed element after the accepted one is an error as well
 		if r.err != nil {
 			if r.status == 101 {
 				return fmt.Sprintf("Upgrade failed (%v) but answered 101", r.err)
 			}
 			return ""
 		}
+		if !hx.Known(sigLaterBad) {
+			return fmt.Sprintf("a malformed permessage-deflate offer follows the accepted element %d, but the handshake succeeded (status %d)", first, r.status)
+		}
+		hx.Exclude(sigLaterBad)
 	}
 	if bad >= 0 {
 		if r.err == nil || r.status == 101 {
@@ -2124,6 +2137,90 @@ func TestKnownFindingLeadingZero(t *testing.T) {
 	}
 	hx.Probe(t, sigLeadZero, "Parameters.Parse / Extension.Negotiate accept window values with a leading zero (server_max_window_bits=08, client_max_window_bits=09) instead of returning an error",
 		present, badCase{Offer: strings.Join(hit, " | ")})
+}
+
+// TestKnownFindingLaterMalformed: a malformed offer is an error wherever it
+// stands in the list, also after the accepted offer.
+func TestKnownFindingLaterMalformed(t *testing.T) {
+	x := wsflate.Extension{}
+	good := ext{extName, nil}
+	bad := ext{extName, []kv{{kSMWB, "99"}}}
+	_, err1 := x.Negotiate(mustText(good))
+	_, accepted := x.Accepted()
+	_, err2 := x.Negotiate(mustText(bad))
+	present := err1 == nil && accepted && err2 == nil
+	hx.Probe(t, sigLaterBad, "Extension.Negotiate returns no error for a malformed offer (permessage-deflate; server_max_window_bits=99) when it follows an accepted one: 'permessage-deflate, permessage-deflate; server_max_window_bits=99' is answered 101, the same offers in the other order fail the handshake",
+		present, listCase{"permessage-deflate", []string{good.String(), bad.String()}})
+}
+
+// TestOpenClasses counts what the statement leaves undetermined; nothing is
+// asserted here.
+func TestOpenClasses(t *testing.T) {
+	// Accepted() parameters after a declined offer (the statement does not
+	// mention them; the doc says "parameters parsed during last negotiation").
+	for ci, cfg := range allConfigs {
+		if ci%9 != 0 {
+			continue
+		}
+		for _, of := range allOffers {
+			x := wsflate.Extension{Parameters: cfg.lib()}
+			ans, err := x.Negotiate(direct(ext{extName, of.params()}))
+			if err != nil || ans.Size() != 0 {
+				continue
+			}
+			switch p, _ := x.Accepted(); p {
+			case of.lib():
+				hx.Class("open/accepted-params-after-decline=the-offer")
+			case wsflate.Parameters{}:
+				hx.Class("open/accepted-params-after-decline=zero")
+			default:
+				hx.Class("open/accepted-params-after-decline=other")
+			}
+		}
+	}
+	// Server-side ClientMaxWindowBits = 1 (the valueless marker) is outside
+	// the statement's "2x2x9x9 configurations".
+	for _, of := range allOffers {
+		x := wsflate.Extension{Parameters: wsflate.Parameters{ClientMaxWindowBits: 1}}
+		ans, err := x.Negotiate(direct(ext{extName, of.params()}))
+		switch {
+		case err != nil:
+			hx.Class("open/server-config-cmwb=1/error")
+		case ans.Size() == 0:
+			hx.Class("open/server-config-cmwb=1/declined")
+		default:
+			valueless := false
+			for _, p := range readOption(ans).Params {
+				valueless = valueless || (p.K == kCMWB && p.V == "")
+			}
+			hx.Class(fmt.Sprintf("open/server-config-cmwb=1/answered/valueless-cmwb-in-answer=%v", valueless))
+		}
+	}
+	// Parameters{ServerMaxWindowBits: 1} is outside the "2x2x9x10" space.
+	func() {
+		defer func() {
+			if recover() != nil {
+				hx.Class("open/option-smwb=1/panics")
+			}
+		}()
+		e := readOption(wsflate.Parameters{ServerMaxWindowBits: 1}.Option())
+		hx.Class("open/option-smwb=1/emits:" + e.String())
+	}()
+	// An empty quoted-string value reaches wsflate as a zero-length value,
+	// which is httphead's representation of "no value".
+	for _, text := range []string{`permessage-deflate; client_max_window_bits=""`, `permessage-deflate; server_no_context_takeover=""`, `permessage-deflate; server_max_window_bits=""`} {
+		opts, ok := httphead.ParseOptions([]byte(text), nil)
+		if !ok || len(opts) != 1 {
+			hx.Class("open/empty-quoted-value/refused-by-httphead")
+			continue
+		}
+		var p wsflate.Parameters
+		if p.Parse(opts[0]) == nil {
+			hx.Class("open/empty-quoted-value/accepted: " + text)
+		} else {
+			hx.Class("open/empty-quoted-value/rejected: " + text)
+		}
+	}
 }
 
 func mustText(e ext) httphead.Option {
